@@ -61,6 +61,8 @@ def ty_coq(t):
         return "L"
     if t == "MAT":
         return "M"
+    if t == "CL":
+        return "CL"
     if isinstance(t, tuple) and t[0] == "record":
         return t[4] if len(t) > 4 else "(%s F L)" % t[1]
     if isinstance(t, tuple) and t[0] == "dict":
@@ -96,6 +98,7 @@ class Fn:
     """translation of one function"""
 
     def __init__(self, mod, node, sigs, overrides, externs=None):
+        self.loop_k = []               # continuations that end the current iteration of the enclosing loops
         self.externs = externs or {}   # source name -> (arg types, return type, Coq name, monadic?)
         self.mod = mod
         self.node = node
@@ -289,7 +292,13 @@ class Fn:
         if len(e.generators) != 1 or e.generators[0].ifs or e.generators[0].is_async:
             raise Unsupported("comprehension shape")
         g = e.generators[0]
-        bi, ci, ti = self.expr(g.iter, env)
+        if isinstance(g.iter, ast.Call) and ast.unparse(g.iter.func) == "range" and len(g.iter.args) == 1 and not g.iter.keywords:
+            bi, cr, tr = self.expr(g.iter.args[0], env)
+            if tr != "int":
+                raise Unsupported("range of %s" % (tr,))
+            ci, ti = "(zrange %s)" % cr, ("list", "int")
+        else:
+            bi, ci, ti = self.expr(g.iter, env)
         if not (isinstance(ti, tuple) and ti[0] == "list"):
             raise Unsupported("comprehension over %s" % (ti,))
         pat, env2 = self.pattern(g.target, ti[1], env)
@@ -536,6 +545,10 @@ class Fn:
             elif isinstance(s, ast.AugAssign) and isinstance(s.target, ast.Name):
                 add(s.target.id)
             elif isinstance(s, ast.Expr) and isinstance(s.value, ast.Call) and isinstance(s.value.func, ast.Attribute) \
+                    and s.value.func.attr == "append" and isinstance(s.value.func.value, ast.Subscript) \
+                    and isinstance(s.value.func.value.value, ast.Name):
+                add(s.value.func.value.value.id)
+            elif isinstance(s, ast.Expr) and isinstance(s.value, ast.Call) and isinstance(s.value.func, ast.Attribute) \
                     and isinstance(s.value.func.value, ast.Name) and s.value.func.attr in ("append", "pop"):
                 add(s.value.func.value.id)
             elif isinstance(s, ast.If):
@@ -546,7 +559,7 @@ class Fn:
                     add(n)
                 if s.orelse:
                     raise Unsupported("for-else")
-            elif isinstance(s, (ast.Assert, ast.Raise, ast.Return, ast.Expr, ast.Pass)):
+            elif isinstance(s, (ast.Assert, ast.Raise, ast.Return, ast.Expr, ast.Pass, ast.Continue)):
                 pass
             else:
                 raise Unsupported("statement %s" % type(s).__name__)
@@ -678,6 +691,22 @@ class Fn:
         if isinstance(s, ast.Expr) and isinstance(s.value, ast.Call) and ast.unparse(s.value.func) in INERT_CALLS:
             return nxt(env)      # logging / guarded hooks: trusted white list (as in skeleton mode)
         if isinstance(s, ast.Expr) and isinstance(s.value, ast.Call) and isinstance(s.value.func, ast.Attribute) \
+                and s.value.func.attr == "append" and isinstance(s.value.func.value, ast.Subscript) \
+                and isinstance(s.value.func.value.value, ast.Name) and s.value.func.value.value.id in env \
+                and len(s.value.args) == 1 and not s.value.keywords:
+            # l[i].append(v) on a list of lists
+            a = s.value.func.value.value.id
+            ta = env[a]
+            if not (isinstance(ta, tuple) and ta[0] == "list" and isinstance(ta[1], tuple) and ta[1][0] == "list"):
+                raise Unsupported("nested append on %s" % (ta,))
+            bi, ci, ti = self.expr(s.value.func.value.slice, env)
+            bv, cv, tv = self.expr(s.value.args[0], env)
+            if ti != "int" or (ta[1][1] is not None and repr(ta[1][1]) != repr(tv)):
+                raise Unsupported("nested append types")
+            env2 = dict(env)
+            env2[a] = ("list", ("list", tv))
+            return self.wrap(bi + bv, "%s <- py_append_at %s %s %s ;;\n  %s" % (cname(a), cname(a), ci, cv, nxt(env2)))
+        if isinstance(s, ast.Expr) and isinstance(s.value, ast.Call) and isinstance(s.value.func, ast.Attribute) \
                 and isinstance(s.value.func.value, ast.Name) and s.value.func.value.id in env:
             a = s.value.func.value.id
             ta = env[a]
@@ -691,6 +720,12 @@ class Fn:
             if s.value.func.attr == "pop" and not s.value.args and not s.value.keywords and isinstance(ta, tuple) and ta[0] == "list":
                 return "%s <- py_pop_last %s ;;\n  %s" % (cname(a), cname(a), nxt(env))
             raise Unsupported("method call %s" % ast.unparse(s))
+        if isinstance(s, ast.If) and not s.orelse and s.body and isinstance(s.body[-1], ast.Continue) and self.loop_k:
+            # if c: ...; continue   (directly in a loop body): the iteration ends here with the state as it is
+            b, c, t = self.expr(s.test, env)
+            if t != "bool":
+                raise Unsupported("condition type %s" % (t,))
+            return self.wrap(b, "if %s then\n  %s\n  else\n  %s" % (c, self.block(s.body[:-1], env, self.loop_k[-1]), nxt(env)))
         if isinstance(s, ast.If):
             b, c, t = self.expr(s.test, env)
             if t != "bool":
@@ -745,8 +780,13 @@ class Fn:
             if s.orelse:
                 raise Unsupported("for-else")
             for n in ast.walk(s):
-                if isinstance(n, (ast.Break, ast.Continue, ast.Return)):
-                    raise Unsupported("break / continue / return inside a loop")
+                if isinstance(n, (ast.Break, ast.Return)):
+                    raise Unsupported("break / return inside a loop")
+            n_cont = sum(isinstance(n, ast.Continue) for n in ast.walk(s))
+            n_ok = sum(isinstance(x, ast.If) and not x.orelse and x.body and isinstance(x.body[-1], ast.Continue)
+                       and not any(isinstance(n, ast.Continue) for y in x.body[:-1] for n in ast.walk(y)) for x in s.body)
+            if n_cont != n_ok:
+                raise Unsupported("continue in this position")
             if isinstance(s.iter, ast.Call) and ast.unparse(s.iter.func) in ("range", "numba_guard.prange") \
                     and len(s.iter.args) == 1 and not s.iter.keywords:
                 # numba_guard.prange is range when interpreted and a parallel loop when compiled; the sequential reading
@@ -766,6 +806,11 @@ class Fn:
                     it, el = "(zrange_down %s %s)" % (parts[0][1], parts[1][1]), "int"
                 else:
                     it, el = "(zrange2 %s %s)" % (parts[0][1], parts[1][1]), "int"
+            elif isinstance(s.iter, ast.Call) and ast.unparse(s.iter.func) == "enumerate" and len(s.iter.args) == 1 and not s.iter.keywords:
+                b, c, t = self.expr(s.iter.args[0], env)
+                if not (isinstance(t, tuple) and t[0] == "list"):
+                    raise Unsupported("enumerate of %s" % (t,))
+                it, el = "(py_enumerate %s)" % c, ("tuple", ["int", t[1]])
             else:
                 b, it, t = self.expr(s.iter, env)
                 if not (isinstance(t, tuple) and t[0] == "list"):
@@ -779,12 +824,13 @@ class Fn:
             def kend(e2):
                 out_envs.append(e2)
                 return "Ret %s" % spat[0]
+            self.loop_k.append(kend)
             body = self.block(s.body, env_body, kend)
             env2 = dict(env)
             init = {n: cname(n) for n in state}
             for n in state:
                 for e2 in out_envs:
-                    if env[n] in (("list", None), ("dict", None)):
+                    if env[n] in (("list", None), ("dict", None), ("list", ("list", None))):
                         env2[n] = e2[n]
                     elif env[n] == "int" and e2[n] == "F":
                         # an int accumulator that meets floats in the loop: the initial value converts exactly
@@ -803,6 +849,7 @@ class Fn:
                     for e2 in out_envs:
                         if repr(e2[n]) != repr(env2[n]):
                             raise Unsupported("loop changes the type of %s" % n)
+            self.loop_k.pop()
             init_code = spat[0] if all(init[n] == cname(n) for n in state) else \
                 (init[state[0]] if len(state) == 1 else "(" + ", ".join(init[n] for n in state) + ")")
             return self.wrap(b, "%s <- foldM (fun %s %s =>\n  %s) %s %s ;;\n  %s" % (
@@ -818,6 +865,8 @@ class Fn:
         if repr(t) == repr(want):
             return
         if isinstance(t, tuple) and t[0] == "list" and t[1] is None and isinstance(want, tuple) and want[0] == "list":
+            return
+        if t == ("list", ("list", None)) and isinstance(want, tuple) and want[0] == "list" and isinstance(want[1], tuple) and want[1][0] == "list":
             return
         raise Unsupported("return type %s, declared %s" % (t, want))
 
@@ -894,6 +943,13 @@ TARGETS = {
                     ("all_points_all_clusters_log_likelihood_fast", "log_det_thetas"): ("list", "F"),
                     ("all_points_all_clusters_log_likelihood_fast", "stacked_training_data"): "arr2",
                     ("all_points_all_clusters_log_likelihood_fast", "return"): "arr2"}),
+    "main_loop_results": ("main_loop.py", ["_compute_log_likelihood_by_cluster"],
+                          {("_compute_log_likelihood_by_cluster", "stacked_training_data"): "arr2",
+                           ("_compute_log_likelihood_by_cluster", "model"):
+                           ("record", "ll_model",
+                            {"arguments": ("record", "ll_args", {"window_size": "int", "num_clusters": "int"}, "la_", "ll_args"),
+                             "clusters": ("list", "CL"), "point_labels": ("list", "int")}, "lm_", "(ll_model CL)"),
+                           ("_compute_log_likelihood_by_cluster", "return"): ("list", ("list", "F"))}),
 }
 # per kernel module: extra imports, extra section variables, and calls rendered as section variables / imported definitions
 KERNEL_MODULES = {
@@ -922,6 +978,12 @@ KERNEL_MODULES = {
                  "  Variable np_log : F -> F.                     (* np.log *)\n"
                  "  Variable np_quad_form : list F -> M -> list F -> F.   (* v.T @ m @ w (BLAS) *)\n"),
         "externs": {k: ([], None, k, False) for k in ("flit", "flog", "math_pi", "np_quad_form")}},
+    "main_loop_results": {
+        "imports": "",
+        "vars": ("  Variable CL : Type.                           (* ClusterParameters objects (opaque) *)\n"
+                 "  (* likelihood.point_log_likelihood(point, cluster, window_size, num_data_series): uninterpreted *)\n"
+                 "  Variable point_log_likelihood : list F -> CL -> Z -> Q -> F.\n"),
+        "externs": {"likelihood.point_log_likelihood": ([("list", "F"), "CL", "int", "float"], "F", "point_log_likelihood", False)}},
     "cluster_metrics": {
         "imports": "",
         "vars": ("  Variable M : Type.                            (* 2-D float64 matrices (opaque) *)\n"
